@@ -57,7 +57,7 @@ def strategy(tier):
             files[1] = {"path": [draw(st.sampled_from([".", ""]))] + list(files[0]["path"]), "size": files[0]["size"] + 16384, "seed": files[0]["seed"] + 1}
         name = draw(st.one_of(comp(), st.sampled_from(BENIGN), st.lists(st.just(".."), min_size=1, max_size=6).map("/".join)))
         return {"version": version, "name": name, "single": single, "files": files, "P": 16384,
-                "order": draw(st.sampled_from([0, 1, 2]))}
+                "order": draw(st.sampled_from([0, 1, 2])), "cwd_root": draw(st.sampled_from([False, False, True]))}
     return case()
 
 
@@ -199,11 +199,16 @@ def run_case(case):
         hostile = is_hostile(case["name"]) or any(is_hostile(c) for f in case["files"] for c in f["path"])
         before = sandbox.snapshot(scr)
         exc = None
+        old_cwd = os.getcwd()
+        if case.get("cwd_root"):
+            os.chdir("/")       # services and containers start there; path normalisation clamps '..' at the root
         try:
             with target.quiet(), listdir.ListdirOrder(case["order"]):
                 target.rebuild.Assembler([mf], [search], dest).assemble_torrents()
         except Exception as e:  # noqa: BLE001 - refusing is allowed
             exc = e
+        finally:
+            os.chdir(old_cwd)
         after = sandbox.snapshot(scr)
         destrel = os.path.relpath(dest, scr)
         diff = [(p, c) for p, c in sandbox.snapdiff(before, after)
